@@ -115,6 +115,9 @@ func (poc *PolicySorter) OnUpdate(update api.Update) (dirty bool) {
 				poc.sortedTiers.Delete(oldKey)
 				tierInfo.Valid = false
 				tierInfo.Order = nil
+				// Forget the deleted tier's default action too, so that a tier that is only kept
+				// alive by its policies looks the same as one whose Tier resource was never seen.
+				tierInfo.DefaultAction = ""
 				if len(tierInfo.Policies) == 0 {
 					delete(poc.tiers, tierName)
 				} else {
